@@ -348,6 +348,13 @@ pub fn anb_selects(a: i64, b: i64, i: i64) -> bool {
 // ---------------------------------------------------------------------------------------
 // interpretation of choices against a source
 
+#[derive(Clone, Debug)]
+pub struct Dict {
+  /// pattern templates; `$X` / `$Y` are replaced by pool variables, `$$$XS` by a multi name
+  pub patterns: Vec<&'static str>,
+  pub regexes: Vec<&'static str>,
+}
+
 pub struct RuleCtx<'a> {
   pub lang: SupportLang,
   pub src: &'a str,
@@ -359,6 +366,9 @@ pub struct RuleCtx<'a> {
   pub util_names: Vec<String>,
   /// None = variable-disjoint (fresh names per leaf); Some(pool) = variable sharing
   pub var_pool: Option<Vec<&'static str>>,
+  /// dictionary mode (C04 scenarios): patterns / regexes come from a fixed small dictionary
+  /// fitted to a fixed-shape source instead of being cut from the source
+  pub dict: Option<Dict>,
   pub counter: std::cell::Cell<usize>,
 }
 
@@ -413,6 +423,7 @@ impl<'a> RuleCtx<'a> {
       named,
       util_names: vec![],
       var_pool: None,
+      dict: None,
       counter: std::cell::Cell::new(0),
     }
   }
@@ -495,6 +506,38 @@ impl<'a> RuleCtx<'a> {
         GRule::Kind(self.kinds[0].clone())
       }
     };
+    if let (Some(d), Some(pool)) = (&self.dict, &self.var_pool) {
+      match rc {
+        RC::Pattern { node, var, .. } => {
+          let t = d.patterns[node.index(d.patterns.len())];
+          let x = pool[*var as usize % pool.len()];
+          let y = pool[(*var as usize / 3 + 1 + *var as usize) % pool.len()];
+          let text = t.replace("$$$XS", &format!("$$${x}S")).replace("$X", &format!("${x}")).replace("$Y", &format!("${y}"));
+          let mut singles = vec![];
+          let mut multis = vec![];
+          if t.contains("$$$XS") {
+            multis.push(format!("{x}S"));
+          }
+          if t.replace("$$$XS", "").contains("$X") {
+            singles.push(x.to_string());
+          }
+          if t.contains("$Y") && !singles.contains(&y.to_string()) {
+            singles.push(y.to_string());
+          }
+          if Pattern::try_new(&text, self.lang).is_ok() {
+            return GRule::Pattern(PatLeaf {
+              text,
+              selector: None,
+              strictness: None,
+              singles,
+              multis,
+            });
+          }
+        }
+        RC::Regex(i, _) => return GRule::Regex(d.regexes[i.index(d.regexes.len())].to_string()),
+        _ => {}
+      }
+    }
     match rc {
       RC::Pattern { node, holes, run, strict, var } => match self.pattern_leaf(node, holes, *run, *strict, *var) {
         Some(p) => GRule::Pattern(p),
@@ -621,6 +664,8 @@ pub struct Bind {
 pub struct REnv<'a> {
   pub single: BTreeMap<String, TsNode<'a>>,
   pub multi: BTreeMap<String, Vec<TsNode<'a>>>,
+  /// pattern leaves that matched on the winning derivation, with the node they matched
+  pub trace: Vec<(PatLeaf, TsNode<'a>)>,
 }
 
 impl<'a> REnv<'a> {
@@ -650,6 +695,10 @@ impl<'a> REnv<'a> {
 
 #[derive(Default)]
 pub struct EvalStats {
+  /// a global utility's constraint failed after its rule had bound something new
+  pub global_constraint_failures: u64,
+  /// ... and a later evaluation of the same utility succeeded (the pollution-sensitive shape)
+  pub global_success_after_failure: u64,
   /// number of failed attempts that had bound a variable before failing (clean-attempt relevance)
   pub failed_attempts_with_bindings: u64,
   pub pattern_calls: u64,
@@ -685,7 +734,7 @@ impl<'a> Evaluator<'a> {
     }
   }
 
-  fn pattern(&self, p: &PatLeaf) -> Option<Pattern<SupportLang>> {
+  pub fn pattern(&self, p: &PatLeaf) -> Option<Pattern<SupportLang>> {
     let key = (p.text.clone(), p.selector.clone(), p.strictness.clone());
     if let Some(v) = self.patterns.borrow().get(&key) {
       return v.clone();
@@ -728,6 +777,7 @@ impl<'a> Evaluator<'a> {
       let v = out.get_multiple_matches(name);
       new.multi.insert(name.clone(), v.iter().map(|x| x.get_ts_node()).collect());
     }
+    new.trace.push((p.clone(), n.clone()));
     Some(new)
   }
 
@@ -854,10 +904,20 @@ impl<'a> Evaluator<'a> {
               match self.eval(c, &bound, &cur) {
                 Some(e) => cur = e,
                 None => {
-                  self.stats.borrow_mut().failed_attempts_with_bindings += 1;
+                  let mut st = self.stats.borrow_mut();
+                  st.failed_attempts_with_bindings += 1;
+                  if cur.single.len() > env.single.len() {
+                    st.global_constraint_failures += 1;
+                  }
                   return None;
                 }
               }
+            }
+          }
+          {
+            let mut st = self.stats.borrow_mut();
+            if st.global_constraint_failures > 0 && cur.single.len() > env.single.len() {
+              st.global_success_after_failure += 1;
             }
           }
           Some(cur)
